@@ -3,6 +3,8 @@
    SA6 e a p flow scope              -> hex            (struct sockaddr_in6)
    ODST fam G:hex|E:errno snip snport -> OK texthex port | FATAL | CRASH cls
    CMSG e lvl:typ:hex ...            -> OK NONE | OK texthex port | FATAL | CRASH cls
+   KCMSG e hdr al room lvl:typ:hex ... -> <as CMSG> CTRUNC=0|1   (the messages as the kernel has them, stored by put_cmsgs)
+   CSPACE hdr al n                   -> CMSG_SPACE(n)
    FMT4|FMT6|FMT6N raw               -> texthex
    P4|P6 text                        -> rawhex | NONE
    INT text                          -> decimal | NONE
@@ -69,6 +71,11 @@ let handle = function
       res ipport (original_dst (n fam) (gso g) (bytes_of_hex snip, n snport))
   | "CMSG" :: e :: ancs ->
       res (optres ipport) (recv_udp_dst (endian e) (List.map anc ancs))
+  | "KCMSG" :: e :: hdr :: al :: room :: ancs ->
+      (* what tproxy.recv_udp returns on a kernel-like socket: put_cmsgs into `room` bytes, then the decoder *)
+      let (r, ct) = recv_udp_kernel (endian e) (n hdr) (n al) (n room) (List.map anc ancs) in
+      Printf.sprintf "%s CTRUNC=%d" (res (optres ipport) r) (if ct then 1 else 0)
+  | ["CSPACE"; hdr; al; k] -> string_of_int (int_of_n (cmsg_space (n hdr) (n al) (n k)))
   | ["FMT4"; a] -> hex_of_bytes (fmt4 (bytes_of_hex a))
   | ["FMT6"; a] -> hex_of_bytes (fmt6 (bytes_of_hex a))
   | ["FMT6N"; a] -> hex_of_bytes (fmt6_ntop (bytes_of_hex a))
